@@ -267,9 +267,9 @@ Proof.
   destruct save; constructor; unf; try assumption; try lia; eexists; repeat split; assumption.
 Qed.
 
-Lemma Inv_step s l : alive s = true -> l <> LDelete -> enq_in_order l -> Inv s -> Inv (step af tags s l).
+Lemma Inv_step s l : alive s = true -> l <> LDelete -> enq_in_order l -> notifies l -> Inv s -> Inv (step af tags s l).
 Proof.
-  intros Ha Hnd Hord H. destruct l.
+  intros Ha Hnd Hord Hnt H. destruct l.
   - destruct batch as [|e b]; [exact H|]. apply Inv_write. exact H.
   - cbn in Hord. subst i. apply Inv_enq. exact H.
   - apply Inv_flush. exact H.
@@ -279,14 +279,16 @@ Proof.
   - congruence.
   - apply Inv_restart. exact H.
   - apply Inv_refuse. exact H.
+  - destruct Hnt.
 Qed.
 
-Lemma Inv_run s sched : alive (run af tags s sched) = true -> Forall enq_in_order sched -> Inv s -> Inv (run af tags s sched).
+Lemma Inv_run s sched : alive (run af tags s sched) = true -> Forall enq_in_order sched -> Forall notifies sched ->
+  Inv s -> Inv (run af tags s sched).
 Proof.
-  revert s. induction sched as [|l tl IH]; intros s Ha Hord H; [exact H|].
-  cbn in *. inversion Hord as [|? ? Hl Htl]; subst.
+  revert s. induction sched as [|l tl IH]; intros s Ha Hord Hnt H; [exact H|].
+  cbn in *. inversion Hord as [|? ? Hl Htl]; subst. inversion Hnt as [|? ? Hn Hntl]; subst.
   pose proof (alive_run _ _ Ha) as Ha1. destruct (alive_step _ _ Ha1) as [Ha0 Hnd].
-  apply IH; [exact Ha|exact Htl|]. apply Inv_step; assumption.
+  apply IH; [exact Ha|exact Htl|exact Hntl|]. apply Inv_step; assumption.
 Qed.
 
 (* at quiescence the copy has reached the end of the source *)
@@ -335,14 +337,14 @@ End WithTags.
 Theorem exact_partial af tags pre c0 sched :
   c0 = length pre ->
   (af = true \/ Forall write_all_keep sched) ->
-  Forall enq_in_order sched ->
+  Forall enq_in_order sched -> Forall notifies sched ->
   let s := run af tags (init pre c0) sched in
   alive s = true -> quiescent s = true ->
   dst s = expected tags (length pre) (log s).
 Proof.
-  intros Hc Hf Hord s Ha Hq. unfold expected.
+  intros Hc Hf Hord Hnt s Ha Hq. unfold expected.
   assert (HI : Inv tags af (length pre) s).
-  { apply Inv_run; [exact Ha|exact Hord|]. apply Inv_init; [reflexivity|exact Hc]. }
+  { apply Inv_run; [exact Ha|exact Hord|exact Hnt|]. apply Inv_init; [reflexivity|exact Hc]. }
   rewrite (quiescent_complete tags af (length pre) s HI Hq).
   f_equal. destruct Hf as [->|Hk].
   - reflexivity.
@@ -393,7 +395,7 @@ Proof.
     + destruct (desc s); exists []; rewrite app_nil_r; reflexivity.
     + destruct (alive s); [destruct (cp <? cfrm s)|]; exists []; rewrite app_nil_r; reflexivity.
     + destruct (alive s); [destruct (cp <? cfrm s)|]; exists []; rewrite app_nil_r; reflexivity.
-    + unfold worker_done. destruct (desc s); [destruct (start_worker _)|]; exists []; rewrite app_nil_r; reflexivity.
+    + unfold worker_done. destruct (desc s); [destruct (alive s); [destruct (start_worker _)|]|]; exists []; rewrite app_nil_r; reflexivity.
     + destruct (alive s); exists []; rewrite app_nil_r; reflexivity.
   - destruct (wrk s) as [[| cp | cp | cp | cp | | cp]|]; exists []; rewrite app_nil_r; reflexivity.
   - destruct (quiescent s && alive s); exists []; rewrite app_nil_r; reflexivity.
@@ -415,9 +417,11 @@ Proof.
   destruct i; cbn in Hx; [right; exact Hx|]. destruct Hx as [<-|Hx]; [left; reflexivity|right; eapply IH; exact Hx].
 Qed.
 
-Lemma rearm_step af tags s l : rearm_ok s -> rearm_ok (step af tags s l).
+(* for a live pipe; a deleted pipe's finishing worker starts no successor (startWorker: !pp.deleted), so its idle
+   descriptor may stay behind LastKnwnPos *)
+Lemma rearm_step af tags s l : alive s = true -> rearm_ok s -> rearm_ok (step af tags s l).
 Proof.
-  intros [Hw Hl He]. destruct s as [L c T Q D W X A]. unf2. destruct l; simp2.
+  intros Halive [Hw Hl He]. destruct s as [L c T Q D W X A]. unf2. subst A. destruct l; simp2.
   - (* LWrite *)
     destruct batch as [|e b]; simp2; [constructor; unf2; assumption|].
     assert (Hlen : length (L ++ e :: b) = length L + S (length b)) by (rewrite app_length; reflexivity).
@@ -437,7 +441,6 @@ Proof.
   - (* LDeliver *)
     destruct Q as [|[a b] q]; simp2; [constructor; unf2; assumption|].
     inversion He as [|? ? Hb He']; subst. cbn in Hb.
-    destruct A; simp2; [|constructor; unf2; assumption].
     unfold on_write_event. simp2.
     destruct D as [d|].
     + set (d1 := {| p_pos := p_pos d; p_lkp := b; p_chg := p_chg d |}).
@@ -457,16 +460,16 @@ Proof.
     unfold work_step. simp2.
     destruct W as [[| cp | cp | cp | cp | | cp]|]; [| | | | | | |constructor; unf2; assumption].
     + destruct Hw as (d & -> & Hc & _). simp2.
-      destruct A; constructor; unf2; try assumption; exists d; repeat split; assumption.
+      constructor; unf2; try assumption; exists d; repeat split; assumption.
     + destruct Hw as (d & -> & Hc & _). simp2.
       destruct (cp <? c); [destruct (nth_error L cp) as [e|]; [destruct (passes af e)|]|];
         constructor; unf2; try assumption; exists d; repeat split; assumption.
     + destruct Hw as (d & -> & Hc & _). simp2.
       constructor; unf2; try assumption. eexists. repeat split. exact Hc.
     + destruct Hw as (d & -> & Hc & Hp). simp2.
-      destruct A; [destruct (cp <? c)|]; constructor; unf2; try assumption; exists d; repeat split; assumption.
+      destruct (cp <? c); constructor; unf2; try assumption; exists d; repeat split; assumption.
     + destruct Hw as (d & -> & Hc & Hp). simp2.
-      destruct A; [destruct (cp <? c)|]; constructor; unf2; try assumption; exists d; repeat split; assumption.
+      destruct (cp <? c); constructor; unf2; try assumption; exists d; repeat split; assumption.
     + destruct Hw as (d & -> & Hc & _). unfold worker_done. simp2.
       set (d1 := {| p_pos := p_pos d; p_lkp := p_lkp d; p_chg := false |}).
       destruct (start_worker_spec d1) as [(-> & _ & Hlt)|(-> & Hor)]; simp2.
@@ -474,7 +477,7 @@ Proof.
       * destruct Hor as [Hor|Hor]; [discriminate|].
         constructor; unf2; try assumption. split; [reflexivity|exact Hor].
     + destruct Hw as (d & -> & Hc & _). simp2.
-      destruct A; constructor; unf2; try assumption; exists d; repeat split; assumption.
+      constructor; unf2; try assumption; exists d; repeat split; assumption.
   - (* LTimeout *)
     destruct W as [[| cp | cp | cp | cp | | cp]|]; try (constructor; unf2; assumption).
     destruct Hw as (d & -> & Hc & Hp). simp2.
@@ -482,7 +485,7 @@ Proof.
   - (* LDelete *)
     constructor; unf2; assumption.
   - (* LRestart *)
-    destruct (quiescent _ && A) eqn:Eqa; [|constructor; unf2; assumption].
+    destruct (quiescent _ && true) eqn:Eqa; [|constructor; unf2; assumption].
     apply andb_true_iff in Eqa as [Hq _]. unfold quiescent in Hq. simp2.
     destruct T; [|discriminate]. destruct Q; [|discriminate].
     apply andb_true_iff in Hq as [Hcl Hq]. apply Nat.eqb_eq in Hcl.
@@ -501,14 +504,20 @@ Proof.
     destruct (passes af e); [|constructor; unf2; assumption].
     destruct Hw as (d & -> & Hc & _). simp2.
     destruct save; constructor; unf2; try assumption; eexists; repeat split; assumption.
+  - (* LDropEnq *)
+    constructor; unf2; try assumption.
+    apply Forall_app in He as [Hea Heb]. apply Forall_app. split; [exact Hea|].
+    apply Forall_forall. intros x Hx. rewrite Forall_forall in Heb. apply Heb. eapply In_remove_nth; exact Hx.
 Qed.
 
 Lemma rearm_init pre c0 : rearm_ok (init pre c0).
 Proof. constructor; unfold wrk_ok, lkp_ok, ends_ok; cbn; try exact I. constructor. Qed.
 
-Lemma rearm_run af tags s sched : rearm_ok s -> rearm_ok (run af tags s sched).
+Lemma rearm_run af tags s sched : alive (run af tags s sched) = true -> rearm_ok s -> rearm_ok (run af tags s sched).
 Proof.
-  revert s. induction sched as [|l tl IH]; intros s H; [exact H|]. cbn. apply IH. apply rearm_step. exact H.
+  revert s. induction sched as [|l tl IH]; intros s Ha H; [exact H|]. cbn in *. apply IH; [exact Ha|].
+  apply rearm_step; [|exact H].
+  pose proof (alive_run tags af _ _ Ha) as Ha1. destruct (alive_step tags af _ _ Ha1) as [Ha0 _]. exact Ha0.
 Qed.
 
 (* ---------- many sources: the product run projects to single-source runs ---------- *)
@@ -546,12 +555,12 @@ Qed.
 
 Theorem recreate_exact af tags s1 sched :
   quiescent s1 = true ->
-  (af = true \/ Forall write_all_keep sched) -> Forall enq_in_order sched ->
+  (af = true \/ Forall write_all_keep sched) -> Forall enq_in_order sched -> Forall notifies sched ->
   let s := run af tags (recreate s1) sched in
   alive s = true -> quiescent s = true -> dst s = expected tags (length (log s1)) (log s).
 Proof.
-  intros Hq Hf Ho. rewrite (recreate_quiescent s1 Hq).
-  exact (exact_partial af tags (log s1) _ sched eq_refl Hf Ho).
+  intros Hq Hf Ho Hn. rewrite (recreate_quiescent s1 Hq).
+  exact (exact_partial af tags (log s1) _ sched eq_refl Hf Ho Hn).
 Qed.
 
 (* ---------- the destination is write-only for the protocol: a prefix in front of it is carried along ---------- *)
@@ -571,16 +580,16 @@ Qed.
 (* ---------- the source partition deleted and created again: exactness continues behind what was copied ---------- *)
 Theorem drop_source_exact af tags s1 sched :
   alive s1 = true ->
-  (af = true \/ Forall write_all_keep sched) -> Forall enq_in_order sched ->
+  (af = true \/ Forall write_all_keep sched) -> Forall enq_in_order sched -> Forall notifies sched ->
   let s := run af tags (drop_source s1) sched in
   alive s = true -> quiescent s = true -> dst s = dst s1 ++ expected tags 0 (log s).
 Proof.
-  intros Ha1 Hf Ho.
+  intros Ha1 Hf Ho Hn.
   assert (E : drop_source s1 = add_dst (dst s1) (init [] 0)).
   { unfold drop_source, add_dst, init, upd_dst. cbn. rewrite Ha1, app_nil_r. reflexivity. }
   rewrite E, run_add_dst. cbn zeta. unfold add_dst, upd_dst. cbn [alive quiescent dst log infl queue cfrm wrk].
   intros Ha Hq. f_equal.
-  exact (exact_partial af tags [] 0 sched eq_refl Hf Ho Ha Hq).
+  exact (exact_partial af tags [] 0 sched eq_refl Hf Ho Hn Ha Hq).
 Qed.
 
 (* ---------- a destination that refuses record cp every time: the worker stays at cp, nothing more is copied ---------- *)
